@@ -249,3 +249,29 @@ fn cryptoutil_xor_array64_mut_128() {
     }
     kani::cover!(true);
 }
+
+// read_u64v_le / write_u64v_le at the 25 lanes of the Keccak state (contract-only stubs in unit sha3): little-endian lanes
+// @harness props=C01,C20 kind=full tier=quick timeout=600
+#[kani::proof]
+#[kani::unwind(201)]
+fn cryptoutil_le64_lane_io() {
+    let src: [u8; 200] = kani::any();
+    let mut lanes = [0u64; 25];
+    read_u64v_le(&mut lanes, &src);
+    let i: usize = kani::any();
+    kani::assume(i < 25);
+    let mut e = 0u64;
+    let mut j = 0;
+    while j < 8 {
+        e |= (src[8 * i + j] as u64) << (8 * j);
+        j += 1;
+    }
+    assert!(lanes[i] == e);
+    let w: [u64; 25] = kani::any();
+    let mut out = [0u8; 200];
+    write_u64v_le(&mut out, &w);
+    let k: usize = kani::any();
+    kani::assume(k < 200);
+    assert!(out[k] == (w[k / 8] >> (8 * (k % 8))) as u8);
+    kani::cover!(true);
+}
